@@ -271,5 +271,16 @@ func parseDuration(s *string, def time.Duration) (time.Duration, error) {
 	}
 
 	// Use the user's value, but validate it per the RFC.
-	return time.ParseDuration(*s)
+	d, err := time.ParseDuration(*s)
+	if err != nil {
+		return 0, err
+	}
+
+	// Durations are sent as unsigned numbers of seconds, where the maximum
+	// value means infinity.
+	if d < 0 || d > ndp.Infinity {
+		return 0, fmt.Errorf("duration %s must not be negative or exceed %s", d, ndp.Infinity)
+	}
+
+	return d, nil
 }
